@@ -645,6 +645,10 @@ func pickR(g *rand.Rand) (string, *big.Int) {
 		return "r=p-n", sub(p, n)
 	case 9, 10:
 		return "r<p-n", new(big.Int).Rand(g, sub(p, n))
+	case 11:
+		// r + n lands in [p, p+4096): with the recovery id's overflow bit set the lifted x
+		// coordinate is not a field element (it must not be reduced mod p)
+		return "r=p-n+k(x=r+n>=p)", add(sub(p, n), bi(int64(g.Intn(4096))))
 	default:
 		return "r=random", new(big.Int).SetBytes(randBytes(g, 32))
 	}
@@ -739,7 +743,7 @@ func genSigCase(g *rand.Rand, i int) sigCase {
 		c.rc, c.r = pickR(g)
 		c.sc, c.s = pickS(g)
 		c.recid = pickRecid(g)
-		if (c.rc == "r<p-n" || c.rc == "r=p-n-1" || c.rc == "r=small") && g.Intn(2) == 0 {
+		if (c.rc == "r<p-n" || c.rc == "r=p-n-1" || c.rc == "r=small" || c.rc == "r=p-n" || c.rc == "r=p-n+k(x=r+n>=p)") && g.Intn(2) == 0 {
 			c.recid = byte(2 + g.Intn(2)) // x = r + n is below p only for these
 		}
 		c.source = "constructed"
